@@ -68,7 +68,7 @@ def run(ctx):
                                     "schedule_trace": [json.loads(x) for x in lines[start:v.line]]})
             ctx.violation(v.bad, keep, "ConservationProp clause %s broken at trace line %d: %s" % (v.bad, v.line, lines[v.line - 1][:500] if v.line else ""))
     for need in ("Q=0", "offer-while-post-held", "offer-while-backend-held", "tick-while-merge-held", "offer-while-merge-held"):
-        if named.get(need, 0) == 0:
+        if named.get(need, 0) == 0 and not (ctx.violations or locals().get("fails")):  # no vacuity verdict once something was found
             raise vlib.MachineryError("vacuity: situation %s never reached" % need)
     ctx.cov["named_situations"] = named
     ctx.cov["rule"] = ("seeded TLC simulation of stimulus schedules over 6 (parsers, workers, queue) configurations x 4 batch shapes "
